@@ -32,6 +32,7 @@ ASSUMPTIONS = [
 ]
 BUDGET = {'quick': 4000, 'thorough': 80000}
 FLOOR = {'quick': 150, 'thorough': 5000}
+CB_FAULT = 'application callback fault'
 NSS = ['/', '/a', '/b']
 NEVER = [0, 10**6, 2**63, 999]
 
@@ -75,10 +76,12 @@ def strategy(tier):
                                'send': st.just(False)}),
         st.fixed_dictionaries({'op': st.just('ack'), 'ns': nsi, 'sel': sel,
                                'j': st.integers(0, 5), 'args': args,
-                               'dup': st.booleans()}),
+                               'dup': st.booleans(),
+                               'raises': st.just(False)}),
         st.fixed_dictionaries({'op': st.just('ack'), 'ns': nsi, 'sel': sel,
                                'j': st.integers(0, 5), 'args': args,
-                               'dup': st.booleans()}),
+                               'dup': st.booleans(),
+                               'raises': st.booleans()}),
         st.fixed_dictionaries({'op': st.just('call'), 'ns': nsi,
                                'timeout': st.sampled_from([0.5, 2, 60]),
                                'data': S.payload_st(max_leaves=3),
@@ -184,6 +187,7 @@ def _run(case, h):
 
     during_cb = {}
     gates = {}
+    cb_raises = set()   # callbacks that raise (application fault)
 
     def mk_cb(k):
         if aio and case['coro_cb']:
@@ -193,15 +197,23 @@ def _run(case, h):
                     fut = h.loop.create_future()
                     gates.setdefault(k, []).append(fut)
                     await fut
+                if k in cb_raises:
+                    raise RuntimeError(CB_FAULT)
         else:
             def cb(*args):
                 cb_log.append((k, list(args)))
                 fn = during_cb.pop(k, None)
                 if fn is not None and not aio:
                     fn()        # re-entrant delivery of a duplicate ACK
+                if k in cb_raises:
+                    raise RuntimeError(CB_FAULT)
         return cb
 
     def check_quiet(step, what):
+        # a raising callback is the application's fault; wherever it is
+        # contained it is not held against the client
+        h.swallowed[:] = [e for e in h.swallowed if CB_FAULT not in str(e)]
+        h.bg_errors[:] = [e for e in h.bg_errors if CB_FAULT not in str(e)]
         if h.swallowed or h.bg_errors:
             raise Violation('error-on-frame', 'step %d (%s): %r'
                             % (step, what, (h.swallowed + h.bg_errors)[0]))
@@ -345,6 +357,9 @@ def _run(case, h):
                 if kk is not None:
                     expect_cb.append((kk, list(op['args'])))
             dup = op.get('dup') and kind == 'own' and kk is not None
+            if op.get('raises') and kind == 'own' and kk is not None:
+                cb_raises.add(kk)
+                labels['callback_raises'] = True
             frs = wire.frames(wire.ACK, ns, pid, list(op['args']))
             if dup and aio and case['coro_cb']:
                 from engineio import packet as ep
